@@ -106,6 +106,14 @@ def digitsVal? : List Char → Option Nat
       | some a, some d => some (10 * a + d)
       | _, _ => none) (some 0)
 
+def isAsciiSpace (c : Char) : Bool :=
+  c = ' ' || c = '\t' || c = '\n' || c = '\r' || c = '\x0b' || c = '\x0c'
+
+/-- `int(part)` for the spellings this model covers: ASCII digits, surrounding ASCII
+whitespace ignored (as `int()` does). -/
+def pyInt? (cs : List Char) : Option Nat :=
+  digitsVal? ((cs.dropWhile isAsciiSpace).reverse.dropWhile isAsciiSpace).reverse
+
 /-- `s.split("-")` on character lists -/
 def splitDash : List Char → List (List Char)
   | [] => [[]]
@@ -115,12 +123,13 @@ def splitDash : List Char → List (List Char)
     | p :: ps => if c = '-' then [] :: p :: ps else (c :: p) :: ps
 
 /-- The guards of `supports_batching` in front of its if-chain: three `-`-separated parts,
-each accepted by `int()`.  Exact for parts that are ASCII digit strings (all the versions
-the C03 run drives); other spellings `int()` accepts are C13's subject. -/
+each accepted by `int()`.  Exact for parts that are ASCII digit strings, optionally surrounded
+by ASCII whitespace (all the versions the C03 run drives); the other spellings `int()` accepts
+(sign, underscores, non-ASCII digits) are C13's subject. -/
 def parseDate (v : String) : Option (Int × Int × Int) :=
   match splitDash v.toList with
   | [a, b, c] =>
-    match digitsVal? a, digitsVal? b, digitsVal? c with
+    match pyInt? a, pyInt? b, pyInt? c with
     | some y, some m, some d => some ((y : Int), (m : Int), (d : Int))
     | _, _, _ => none
   | _ => none
